@@ -126,7 +126,7 @@ class NativeUserEnv(Module):
     watch_addr / watch_lane: the user-side word address and byte lane of the watched byte (Signals, symbolic
     constants).  ref: 8-bit register owned by the caller with the same free initial value as the stub's mem."""
     def __init__(self, port, watch_addr, watch_lane, ref, qdepth=4, name="user", with_write=True, with_read=True,
-                 flush_input=True, last_input=True):
+                 flush_input=True, last_input=True, ascending_bits=0):
         nbytes = len(port.wdata.data) // 8 if with_write else len(port.rdata.data) // 8
         self.inputs = {}
         self.assumes = {}
@@ -159,6 +159,16 @@ class NativeUserEnv(Module):
         c = StreamContract(port.cmd.valid, port.cmd.ready, pay)
         self.submodules += c
         asm("cmd_held_until_accepted", c.ok)
+        if ascending_bits:
+            # consecutive commands of the same direction that fall into the same wide word use strictly ascending addresses
+            # (the order in which an up-converter returns/merges chunks); any other order is the subject of the general benches
+            pa = Signal(len(port.cmd.addr))
+            pw = Signal()
+            pv = Signal()
+            self.sync += If(acc, pa.eq(port.cmd.addr), pw.eq(port.cmd.we), pv.eq(1))
+            same_word = (pa[ascending_bits:] == port.cmd.addr[ascending_bits:]) & (pw == port.cmd.we) & pv
+            asm("ascending_addresses_inside_a_wide_word",
+                ~(port.cmd.valid & same_word) | (port.cmd.addr[:ascending_bits] > pa[:ascending_bits]))
         if not with_write:
             asm("read_only", ~(port.cmd.valid & port.cmd.we))
         if not with_read:
